@@ -77,7 +77,9 @@ func (d *Ar) Next() (*ArEntry, error) {
 	line := make([]byte, 60)
 
 	count, err := d.in.ReadAt(line, d.offset)
-	if err != nil {
+	if err != nil && !(err == io.EOF && count == len(line)) {
+		// io.ReaderAt may report io.EOF together with a complete read
+		// that ends exactly at the end of the input.
 		return nil, err
 	}
 	if count == 1 && line[0] == '\n' {
@@ -188,7 +190,7 @@ func parseArEntry(line []byte) (*ArEntry, error) {
 // like an `ar(1)` archive, and not some random file.
 func checkAr(reader io.ReaderAt) (int64, error) {
 	header := make([]byte, 8)
-	if _, err := reader.ReadAt(header, 0); err != nil {
+	if count, err := reader.ReadAt(header, 0); err != nil && !(err == io.EOF && count == len(header)) {
 		return 0, err
 	}
 	if string(header) != "!<arch>\n" {
